@@ -212,10 +212,12 @@ class FixedArray(Array, Generic[ValuesType]):
         from barril.units import Scalar
 
         if isinstance(value, tuple):
-            scalar = Scalar(self.GetValues()[index], self.GetUnit()).CreateCopy(*value)
+            scalar = Scalar.CreateWithQuantity(
+                self.GetQuantity(), self.GetValues()[index]
+            ).CreateCopy(*value)
 
         elif not isinstance(value, Scalar):
-            scalar = Scalar(value, self.GetUnit())
+            scalar = Scalar.CreateWithQuantity(self.GetQuantity(), value)
 
         else:
             scalar = value
